@@ -321,6 +321,86 @@ Section RelM.
   Proof.
     unfold parse_token. fold (@error_consume token ExpectedSomeValue). sat_auto'.
   Qed.
+  (* ---- progress: a successful token consumes the byte it was dispatched on ----
+     lt0 r r' says that r' is strictly further in the input than r; it is kept
+     by whatever R0-related step follows. *)
+  Variable lt0 : reader -> reader -> Prop.
+  Definition at_byte (b : N) (r : reader) : Prop := rpending r = true /\ exists l, rinput r = EByte b :: l.
+  Definition strict {A} (b : N) (m : M A) : Prop :=
+    forall r, at_byte b r -> match m r with (Ok _, r') => lt0 r r' | (Err _, _) => True end.
+  Hypothesis lt0_then : forall r r1 r2, lt0 r r1 -> R0 r1 None r2 -> lt0 r r2.
+  Hypothesis strict_eat : forall b, strict b eat_char.
+  Hypothesis strict_next : forall b, strict b next_char.
+  Hypothesis strict_symbol_rd : forall b fuel scratch, is_symbol_terminator b = false -> strict b (parse_symbol_rd fuel scratch).
+
+  Lemma strict_bind_l {A B} b (m : M A) (f : A -> M B) : strict b m -> (forall a, sat (f a)) -> strict b (bind m f).
+  Proof.
+    intros Hm Hf r Hr. unfold bind. specialize (Hm r Hr). destruct (m r) as [[a|e] r1]; [|exact I].
+    specialize (Hf a r1). unfold R in Hf. destruct (f a r1) as [[c|e] r2]; cbn [fst snd erase] in Hf; [|exact I].
+    eapply lt0_then; eauto.
+  Qed.
+  Lemma peek_or_null_at b r : at_byte b r -> peek_or_null r = (Ok b, r).
+  Proof. intros [Hp [l Hl]]. unfold peek_or_null, bind, peek, r_peek, ret. rewrite Hp, Hl. reflexivity. Qed.
+  Lemma strict_after_peek0 {A} b (f : N -> M A) : strict b (f b) -> strict b (bind peek_or_null f).
+  Proof. intros H r Hr. unfold bind. rewrite (peek_or_null_at b r Hr). apply H. exact Hr. Qed.
+
+  Lemma strict_parse_symbol b fuel : is_symbol_terminator b = false -> strict b (parse_symbol fuel).
+  Proof. intros H. unfold parse_symbol. apply strict_symbol_rd. exact H. Qed.
+  Lemma strict_parse_num_literal b fuel radix p : strict b (parse_num_literal fast std_parse fuel radix p).
+  Proof. pose proof sat_num_literal_loop. unfold parse_num_literal. apply strict_bind_l; [apply strict_next|intros ?; sat_auto']. Qed.
+  Lemma strict_parse_num_token b fuel radix p : strict b (parse_num_token fast std_parse fuel radix p).
+  Proof. unfold parse_num_token. apply strict_bind_l; [apply strict_parse_num_literal|intros ?; sat_auto']. Qed.
+
+  Lemma digit_not_terminator b : is_digit b = true -> is_symbol_terminator b = false.
+  Proof.
+    unfold is_digit, in_range. intros H. apply andb_prop in H. destruct H as [H1 H2].
+    apply N.leb_le in H1. apply N.leb_le in H2. unfold is_symbol_terminator, memb. cbn [existsb].
+    repeat match goal with |- (?x =? ?y) || _ = false => replace (x =? y) with false by (symmetry; apply N.eqb_neq; intros ->; cbv in H1, H2; first [apply H1; reflexivity | apply H2; reflexivity]); cbn [orb] end.
+    reflexivity.
+  Qed.
+
+  Theorem strict_parse_token fuel b : strict b (parse_token ro alpha fast std_parse fuel b).
+  Proof.
+    unfold parse_token. fold (@error_consume token ExpectedSomeValue).
+    destruct (b =? 35). { apply strict_bind_l; [apply strict_eat|intros ?; sat_auto']. }
+    destruct ((b =? 45) || (b =? 43)). { apply strict_bind_l; [apply strict_eat|intros ?; sat_auto']. }
+    destruct (is_digit b) eqn:Ed.
+    { destruct (ro_digit ro).
+      - apply strict_bind_l; [apply strict_parse_symbol; apply digit_not_terminator; exact Ed|intros ?; sat_auto'].
+      - apply strict_bind_l; [apply strict_parse_num_token|intros ?; sat_auto']. }
+    destruct (b =? 34). { apply strict_bind_l; [apply strict_eat|intros ?; sat_auto']. }
+    destruct (b =? 40). { apply strict_bind_l; [apply strict_eat|intros ?; sat_auto']. }
+    destruct (b =? 91). { apply strict_bind_l; [apply strict_eat|intros ?; sat_auto']. }
+    destruct (b =? 58) eqn:E58.
+    { destruct (ro_kw_prefix ro).
+      - apply strict_bind_l; [apply strict_eat|intros ?; sat_auto'].
+      - apply strict_bind_l; [apply strict_parse_symbol; apply N.eqb_eq in E58; subst b; reflexivity|intros ?; sat_auto']. }
+    destruct (is_ascii_alpha b) eqn:Ea.
+    { apply strict_bind_l; [apply strict_parse_symbol|intros ?; sat_auto'].
+      unfold is_ascii_alpha, is_ascii_lower, is_ascii_upper, in_range in Ea.
+      unfold is_symbol_terminator, memb. cbn [existsb].
+      destruct (b =? 32) eqn:E1; [apply N.eqb_eq in E1; subst b; discriminate Ea|].
+      destruct (b =? 10) eqn:E2; [apply N.eqb_eq in E2; subst b; discriminate Ea|].
+      destruct (b =? 9) eqn:E3; [apply N.eqb_eq in E3; subst b; discriminate Ea|].
+      destruct (b =? 13) eqn:E4; [apply N.eqb_eq in E4; subst b; discriminate Ea|].
+      destruct (b =? 12) eqn:E5; [apply N.eqb_eq in E5; subst b; discriminate Ea|].
+      destruct (b =? 41) eqn:E6; [apply N.eqb_eq in E6; subst b; discriminate Ea|].
+      destruct (b =? 93) eqn:E7; [apply N.eqb_eq in E7; subst b; discriminate Ea|].
+      destruct (b =? 40) eqn:E8; [apply N.eqb_eq in E8; subst b; discriminate Ea|].
+      destruct (b =? 91) eqn:E9; [apply N.eqb_eq in E9; subst b; discriminate Ea|].
+      destruct (b =? 59) eqn:E10; [apply N.eqb_eq in E10; subst b; discriminate Ea|]. reflexivity. }
+    destruct ((b =? 63) && _). { apply strict_bind_l; [apply strict_eat|intros ?; sat_auto']. }
+    destruct (b =? 39). { apply strict_bind_l; [apply strict_eat|intros ?; sat_auto']. }
+    destruct (b =? 96). { apply strict_bind_l; [apply strict_eat|intros ?; sat_auto']. }
+    destruct (b =? 44). { apply strict_bind_l; [apply strict_eat|intros ?; sat_auto']. }
+    destruct (127 <? b). { apply strict_bind_l; [apply strict_eat|intros ?; sat_auto']. }
+    destruct (memb b SYMBOL_EXTENDED) eqn:Ex.
+    { apply strict_bind_l; [apply strict_parse_symbol|intros ?; sat_auto'].
+      unfold SYMBOL_EXTENDED, memb in Ex. cbn [s2b existsb] in Ex.
+      repeat (apply orb_true_iff in Ex; destruct Ex as [Ex|Ex]; [apply N.eqb_eq in Ex; subst b; reflexivity|]). discriminate Ex. }
+    intros r _. unfold error_consume, peek_error. destruct (r_peek_position r). exact I.
+  Qed.
+
   Lemma sat_end_seq fuel close : sat (end_seq fuel close).
   Proof. unfold end_seq. sat_auto'. Qed.
   Lemma sat_expect_end fuel : sat (expect_end fuel).
